@@ -290,7 +290,11 @@ def _leaf(rng, cfg, kinds=None):
         return ["wildcard", rng.choice(tfields), pat]
     if c == "regex":
         w = rng.choice(vocab)
-        return ["regex", rng.choice(tfields), rng.choice((w[0] + ".*", ".*" + w[-1], "[a-m].*", w))]
+        i = rng.randint(1, max(1, len(w) - 1))
+        return ["regex", rng.choice(tfields), rng.choice((w[0] + ".*", ".*" + w[-1], "[a-m].*", w,
+                                                          # a quantifier right after the literal prefix (may mean zero times)
+                                                          w[:i] + "{0,1}" + w[i:], w[:i] + "?" + w[i:], w[:i] + "*" + w[i:],
+                                                          w[:i] + "{1,2}" + w[i:], w[:i] + "x{0,2}" + w[i:]))]
     if c == "termrange":
         a, b = sorted((rng.choice(vocab), rng.choice(vocab)))
         if rng.random() < 0.2:
